@@ -115,14 +115,15 @@ pub proof fn lemma_ud_inner_step(f: il::Function, rdin: PLSet, rs: Seq<il::Scala
 
 //@ source lib/analysis/use_def.rs
 //@ fn fn use_def loops=7
+//@ attr #[verifier::loop_isolation(false)]
 //@ rewrite 1 `let mut ud = HashMap::new();` => `let mut ud: HashMap<il::ProgramLocation, LocationSet> = HashMap::new();` ## R-type-annot: writes down the type rustc infers for `ud` (the function returns it); needed because the invariant mentions `ud` before the first `insert`
 //@ rewrite 1 `for location in rd.keys() {` => `for location in it0: rd.keys() {` ## R-ghost-iter-name: names the ghost iterator of the for loop so that invariants can mention it; no executable change
-//@ rewrite 1 `}) }); defs }),` => `} } defs }; } vf_acc },` ## R-fold / R-for-each: closes, in this order, the loop over the written scalars, the loop over the reaching definitions, the block whose value `defs` is the new accumulator, the loop over the read scalars, and yields the accumulator as the value of the match arm (closing parts of the three rewrites below)
-//@ rewrite 1 `}) } }); defs }, ) }) .unwrap_or_else(LocationSet::new),` => `} } } defs }; } vf_acc } },` ## R-fold / R-for-each / R-opt-map-or-else: closes the loop over the written scalars, the `if let`, the loop over the reaching definitions, the accumulator block, the loop over the read scalars, the `Some(condition)` arm and the `match` that replaces `OPT.map(|condition| BODY).unwrap_or_else(LocationSet::new)`
-//@ rewrite 1 `instruction .operation() .scalars_read() .into_iter() .flatten() .fold(LocationSet::new(), |mut defs, scalar_read| {` => `{ let vf_reads: Vec<&il::Scalar> = match instruction.operation().scalars_read() { Some(vf_v) => vf_v, None => Vec::new() }; let mut vf_acc = LocationSet::new(); for scalar_read in vf_it1: vf_reads { let mut defs = vf_acc; vf_acc = {` ## R-opt-flatten + R-fold: `OPT.into_iter().flatten()` (OPT: Option<Vec<T>>) yields the items of the vector if OPT is Some and nothing if it is None, i.e. it iterates `match OPT { Some(v) => v, None => Vec::new() }`; `ITER.fold(INIT, |mut acc, x| { BODY; acc })` is by definition `let mut a = INIT; for x in ITER { let mut acc = a; a = { BODY; acc }; } a`; OPT, INIT and BODY stay the original tokens
+//@ rewrite 1 `}) }); defs }),` => `} } defs }; } vf_acc },` ## R-fold-close: closes, in this order, the loop over the written scalars, the loop over the reaching definitions, the block whose value `defs` is the new accumulator, the loop over the read scalars, and yields the accumulator as the value of the match arm (closing parts of the three rewrites below)
+//@ rewrite 1 `}) } }); defs }, ) }) .unwrap_or_else(LocationSet::new),` => `} } } defs }; } vf_acc } } },` ## R-fold-close: closes the loop over the written scalars, the `if let`, the loop over the reaching definitions, the accumulator block, the loop over the read scalars, the `Some(condition)` arm and the `match` that replaces `OPT.map(|condition| BODY).unwrap_or_else(LocationSet::new)`
+//@ rewrite 1 `instruction .operation() .scalars_read() .into_iter() .flatten() .fold(LocationSet::new(), |mut defs, scalar_read| {` => `{ let vf_reads: Vec<&il::Scalar> = match instruction.operation().scalars_read() { Some(vf_v) => vf_v, None => Vec::new() }; let mut vf_acc = LocationSet::new(); for scalar_read in vf_it1: vf_reads { let mut defs = vf_acc; vf_acc = {` ## R-opt-flatten-fold: `OPT.into_iter().flatten()` (OPT: Option<Vec<T>>) yields the items of the vector if OPT is Some and nothing if it is None, i.e. it iterates `match OPT { Some(v) => v, None => Vec::new() }`; `ITER.fold(INIT, |mut acc, x| { BODY; acc })` is by definition `let mut a = INIT; for x in ITER { let mut acc = a; a = { BODY; acc }; } a`; OPT, INIT and BODY stay the original tokens
 //@ rewrite 2 `rd_in.locations().iter().for_each(|rd| {` => `for rd in vf_it2: rd_in.locations().iter() {` ## R-for-each: `ITER.for_each(|x| BODY)` is by definition `for x in ITER { BODY }` (ITER and BODY stay the original tokens)
-//@ rewrite 1 `rd.function_location() .apply(function) .unwrap() .instruction() .unwrap() .operation() .scalars_written() .into_iter() .flatten() .for_each(|scalar_written| {` => `let vf_ws: Vec<&il::Scalar> = match rd.function_location().apply(function).unwrap().instruction().unwrap().operation().scalars_written() { Some(vf_v) => vf_v, None => Vec::new() }; for scalar_written in vf_it3: vf_ws {` ## R-opt-flatten + R-for-each: as above; the receiver chain stays the original tokens
-//@ rewrite 1 `edge .condition() .map(|condition| {` => `match edge.condition() { None => LocationSet::new(), Some(condition) => {` ## R-opt-map-or-else: `OPT.map(|x| { BODY }).unwrap_or_else(F)` is by definition `match OPT { None => F(), Some(x) => { BODY } }`; F = `LocationSet::new`
+//@ rewrite 1 `rd.function_location() .apply(function) .unwrap() .instruction() .unwrap() .operation() .scalars_written() .into_iter() .flatten() .for_each(|scalar_written| {` => `let vf_rfl = rd.function_location().apply(function).unwrap(); let vf_ws: Vec<&il::Scalar> = match vf_rfl.instruction().unwrap().operation().scalars_written() { Some(vf_v) => vf_v, None => Vec::new() }; for scalar_written in vf_it3: vf_ws {` ## R-opt-flatten-for-each: as above (R-opt-flatten, R-for-each); the receiver chain stays the original tokens, its first temporary (the applied location, which the instruction reference borrows from) is bound to a local so that it lives as long as it did inside the original single expression
+//@ rewrite 1 `edge .condition() .map(|condition| {` => `{ let vf_cond = edge.condition(); match vf_cond { None => LocationSet::new(), Some(condition) => {` ## R-opt-map-or-else: `OPT.map(|x| { BODY }).unwrap_or_else(F)` is by definition `{ let o = OPT; match o { None => F(), Some(x) => { BODY } } }`; F = `LocationSet::new`
 //@ rewrite 1 `condition.scalars().into_iter().fold( LocationSet::new(), |mut defs, scalar_read| {` => `let vf_reads: Vec<&il::Scalar> = condition.scalars(); let mut vf_acc = LocationSet::new(); for scalar_read in vf_it1: vf_reads { let mut defs = vf_acc; vf_acc = {` ## R-fold: as above (the iterated vector is bound to a local first)
 //@ rewrite 1 `scalars_written.into_iter().for_each(|scalar_written| {` => `for scalar_written in vf_it3: scalars_written {` ## R-for-each: as above
 //@ spec
@@ -168,5 +169,147 @@ pub proof fn lemma_ud_inner_step(f: il::Function, rdin: PLSet, rs: Seq<il::Scala
         assert(is_rd_in(f, m, l, rdin));
         lemma_rd_in_defs_ok(function, m, l, rdin);
         lemma_len0(rdin);
+    }
+// ---------------- Instruction arm
+//@ before 0 `let mut vf_acc = LocationSet::new(); for scalar_read in vf_it1: vf_reads { let mut defs = vf_acc; vf_acc = { for rd in vf_it2: rd_in.locations().iter() { let vf_rfl`
+    let ghost rs = read_list(f, l);
+    let ghost reads_v = vf_reads@;
+    proof { assert(il::refs_are(reads_v, rs)); }
+//@ before 0 `for scalar_read in vf_it1: vf_reads { let mut defs = vf_acc; vf_acc = { for rd in vf_it2: rd_in.locations().iter() { let vf_rfl`
+    proof {
+        lemma_scan_outer_init(f, rdin, rs, set_pred(vf_acc@));
+        lemma_ud_collected(f, m, l, rdin, rs, 0, vf_acc@);
+    }
+//@ loop 1
+    invariant
+        vf_it1.seq() == reads_v,
+        scan_outer(f, rdin, rs, vf_it1.index@ as int, set_pred(vf_acc@)),
+        vf_it1.index@ == vf_it1.seq().len() ==> is_ud_at(f, m, l, vf_acc@),
+//@ before 0 `for rd in vf_it2: rd_in.locations().iter() { let vf_rfl`
+    let ghost i1 = vf_it1.index@ as int;
+    proof {
+        assert(*scalar_read == rs[i1]);
+        if rdin.len() == 0 { assert(scan_outer(f, rdin, rs, i1 + 1, set_pred(defs@))); }
+    }
+//@ loop 2
+    invariant
+        graph::seq_lists_set_ref(vf_it2.seq(), rdin),
+        scan_middle(f, rdin, rs, i1, vf_it2.seq(), vf_it2.index@, set_pred(defs@)),
+        vf_it2.index@ == vf_it2.seq().len() ==> scan_outer(f, rdin, rs, i1 + 1, set_pred(defs@)),
+//@ before 0 `let vf_rfl`
+    let ghost n = vf_it2.index@;
+    let ghost dk = *rd;
+    let ghost ws = write_list(f, kloc(dk));
+    proof {
+        graph::lemma_seq_lists_set_ref(vf_it2.seq(), rdin);
+        assert(rdin.contains(dk));
+        assert(is_def_loc(f, dk));
+        assert forall|x: il::RefFunctionLocation| #[trigger] il::rfl_points_in(f, x) implies op_of(x) == op_at(f, il::loc_of(x)) by {
+            lemma_op_of_at(f, x);
+        }
+    }
+//@ before 0 `for scalar_written in vf_it3: vf_ws {`
+    let ghost ws_v = vf_ws@;
+    proof {
+        assert(il::refs_are(ws_v, ws));
+        lemma_scan_inner_init(f, rdin, rs, i1, vf_it2.seq(), n, ws, set_pred(defs@));
+        lemma_scan_inner_done(f, rdin, rs, i1, vf_it2.seq(), n, ws, 0, set_pred(defs@));
+    }
+//@ loop 3
+    invariant
+        vf_it3.seq() == ws_v,
+        scan_inner(f, rdin, rs, i1, vf_it2.seq(), n, ws, vf_it3.index@ as int, set_pred(defs@)),
+        vf_it3.index@ == vf_it3.seq().len() ==> scan_middle(f, rdin, rs, i1, vf_it2.seq(), n + 1, set_pred(defs@)),
+//@ before 0 `if scalar_written == scalar_read {`
+    let ghost j3 = vf_it3.index@ as int;
+    let ghost s0 = defs@;
+    proof { assert(*scalar_written == ws[j3]); }
+//@ before 0 `} } defs }; } vf_acc },`
+    proof {
+        lemma_ud_inner_step(f, rdin, rs, i1, vf_it2.seq(), n, ws, j3, s0, defs@);
+        lemma_scan_inner_done(f, rdin, rs, i1, vf_it2.seq(), n, ws, j3 + 1, set_pred(defs@));
+    }
+//@ before 0 `} defs }; } vf_acc },`
+    proof { lemma_scan_middle_done(f, rdin, rs, i1, vf_it2.seq(), n + 1, set_pred(defs@)); }
+//@ before 0 `} vf_acc },`
+    proof { lemma_ud_collected(f, m, l, rdin, rs, vf_it1.index@ + 1, vf_acc@); }
+// ---------------- Edge arm
+//@ before 0 `let vf_cond = edge.condition();`
+    proof {
+        assert(il::edge_of(f, *edge));
+        assert(cond_at(f, l) == edge.condition);
+    }
+//@ before 1 `let mut vf_acc = LocationSet::new();`
+    let ghost rs = read_list(f, l);
+    let ghost reads_v = vf_reads@;
+    proof { assert(il::refs_are(reads_v, rs)); }
+//@ before 1 `for scalar_read in vf_it1: vf_reads {`
+    proof {
+        lemma_scan_outer_init(f, rdin, rs, set_pred(vf_acc@));
+        lemma_ud_collected(f, m, l, rdin, rs, 0, vf_acc@);
+    }
+//@ loop 4
+    invariant
+        vf_it1.seq() == reads_v,
+        scan_outer(f, rdin, rs, vf_it1.index@ as int, set_pred(vf_acc@)),
+        vf_it1.index@ == vf_it1.seq().len() ==> is_ud_at(f, m, l, vf_acc@),
+//@ before 1 `for rd in vf_it2: rd_in.locations().iter() {`
+    let ghost i1 = vf_it1.index@ as int;
+    proof {
+        assert(*scalar_read == rs[i1]);
+        if rdin.len() == 0 { assert(scan_outer(f, rdin, rs, i1 + 1, set_pred(defs@))); }
+    }
+//@ loop 5
+    invariant
+        graph::seq_lists_set_ref(vf_it2.seq(), rdin),
+        scan_middle(f, rdin, rs, i1, vf_it2.seq(), vf_it2.index@, set_pred(defs@)),
+        vf_it2.index@ == vf_it2.seq().len() ==> scan_outer(f, rdin, rs, i1 + 1, set_pred(defs@)),
+//@ before 0 `if let Some(scalars_written) = rd`
+    let ghost n = vf_it2.index@;
+    let ghost dk = *rd;
+    let ghost ws = write_list(f, kloc(dk));
+    proof {
+        graph::lemma_seq_lists_set_ref(vf_it2.seq(), rdin);
+        assert(rdin.contains(dk));
+        assert(is_def_loc(f, dk));
+        assert forall|x: il::RefFunctionLocation| #[trigger] il::rfl_points_in(f, x) implies op_of(x) == op_at(f, il::loc_of(x)) by {
+            lemma_op_of_at(f, x);
+        }
+        lemma_scan_inner_init(f, rdin, rs, i1, vf_it2.seq(), n, ws, set_pred(defs@));
+        lemma_scan_inner_done(f, rdin, rs, i1, vf_it2.seq(), n, ws, 0, set_pred(defs@));
+    }
+//@ before 0 `for scalar_written in vf_it3: scalars_written {`
+    let ghost ws_v = scalars_written@;
+    proof { assert(il::refs_are(ws_v, ws)); }
+//@ loop 6
+    invariant
+        vf_it3.seq() == ws_v,
+        scan_inner(f, rdin, rs, i1, vf_it2.seq(), n, ws, vf_it3.index@ as int, set_pred(defs@)),
+        vf_it3.index@ == vf_it3.seq().len() ==> scan_middle(f, rdin, rs, i1, vf_it2.seq(), n + 1, set_pred(defs@)),
+//@ before 1 `if scalar_written == scalar_read {`
+    let ghost j3 = vf_it3.index@ as int;
+    let ghost s0 = defs@;
+    proof { assert(*scalar_written == ws[j3]); }
+//@ before 0 `} } } defs }; } vf_acc } } },`
+    proof {
+        lemma_ud_inner_step(f, rdin, rs, i1, vf_it2.seq(), n, ws, j3, s0, defs@);
+        lemma_scan_inner_done(f, rdin, rs, i1, vf_it2.seq(), n, ws, j3 + 1, set_pred(defs@));
+    }
+//@ before 0 `} defs }; } vf_acc } } },`
+    proof { lemma_scan_middle_done(f, rdin, rs, i1, vf_it2.seq(), n + 1, set_pred(defs@)); }
+//@ before 0 `} vf_acc } } },`
+    proof { lemma_ud_collected(f, m, l, rdin, rs, vf_it1.index@ + 1, vf_acc@); }
+// ---------------- the entry is inserted
+//@ before 0 `ud.insert(location.clone(), defs);`
+    let ghost old_ud = ud@;
+    proof {
+        assert(is_ud_at(f, m, l, defs@)) by {
+            if read_list(f, l).len() == 0 && defs@ == Set::<il::ProgramLocation>::empty() { lemma_ud_nothing_read(f, m, l, defs@); }
+        }
+    }
+//@ after 0 `ud.insert(location.clone(), defs);`
+    proof {
+        lemma_ud_scan_step(f, m, it0.seq(), it0.index@, old_ud, ud@[*location]);
+        lemma_ud_scan_done(f, m, it0.seq(), it0.index@ + 1, ud@);
     }
 //@ end
